@@ -14,6 +14,7 @@ bootstrap.ensure()
 
 ID = "C20"
 LEVEL = "fault_enumeration"
+TECHNIQUE = "runtime monitoring (fault enumeration): injected ill-typed requests through all option routes, exception-class oracle + fingerprints"
 RULE = (
     "fault-style enumeration: on every intermediate relation of seeded random well-typed multi-engine programs (SQL + "
     "two iteration engines, depth <= 2/3) each ill-typing from the catalogue {calculation / selection / sort / "
